@@ -115,6 +115,56 @@ def refresh_functions(index: Index, cls: ClassInfo) -> Dict[int, set]:
     return out
 
 
+def register_lazy_caches(index: Index):
+    """Attributes filled lazily (`if self._x is None: self._x = <computed>`) that the tables do not know are derived caches:
+    registered like unknown cached_property members, with the state attributes their fill reads (conservative: stale
+    whenever one of them is written; `self._x = None` invalidates).  Done once per Index."""
+    from .components import CACHE_PARTS, EXTRA_CACHE_READS, bind_tables
+    from .model import ATTR, PRIMARY
+    bind_tables(index)
+    if getattr(index, "_lazy_caches_done", False):
+        return
+    index._lazy_caches_done = True
+    found = {}
+    for cls in index.shape_classes():
+        fns = list(cls.methods.values()) + [x for p in cls.props.values() for x in (p.getter, p.setter) if x]
+        for f in fns:
+            for n in ast.walk(f.node):
+                if not isinstance(n, ast.If):
+                    continue
+                t = n.test
+                if not (isinstance(t, ast.Compare) and len(t.ops) == 1 and isinstance(t.ops[0], ast.Is)
+                        and isinstance(t.comparators[0], ast.Constant) and t.comparators[0].value is None
+                        and isinstance(t.left, ast.Attribute) and isinstance(t.left.value, ast.Name) and t.left.value.id == "self"):
+                    continue
+                x = t.left.attr
+                if x in ATTR or x in PRIMARY or x in CACHE_PARTS or not x.startswith("_"):
+                    continue
+                stores = [m for b in n.body for m in ast.walk(b) if isinstance(m, ast.Assign)
+                          and any(isinstance(tt, ast.Attribute) and tt.attr == x or (isinstance(tt, ast.Tuple) and any(
+                              isinstance(e, ast.Attribute) and e.attr == x for e in tt.elts)) for tt in m.targets)]
+                if stores:
+                    found.setdefault(x, []).append((cls, f))
+    from .components import DERIVED_ATTRS
+    for x, sites in found.items():
+        reads = set()
+        dim = None
+        for cls, f in sites:
+            try:
+                r = Interp(index).run_entry(f, cls)
+            except RecursionError:
+                continue
+            reads |= {e.loc[1] for e in r["events"] if e.type == "read" and e.loc[0] == "self" and e.loc[1] != x}
+            for e in r["events"]:
+                if e.type == "write" and e.loc == ("self", x) and e.rhs is not None and not e.rhs.has_const():
+                    dim = (e.rhs.dim, e.rhs.kind if e.rhs.kind in ("arr", "float") else "arr")
+        CACHE_PARTS[x] = ("",)
+        EXTRA_CACHE_READS[x] = reads
+        if dim is not None and x not in ATTR:
+            ATTR[x] = dim                      # the degree of what the fill stores (so that readers are typed)
+            DERIVED_ATTRS.add(x)
+
+
 def register_cached_properties(index: Index, cls: ClassInfo):
     """every functools.cached_property of the hierarchy is a cache: unknown ones are registered with the set of
     state attributes their getter reads (conservative: dirty whenever one of them is written, whatever the kind)."""
@@ -132,6 +182,7 @@ def register_cached_properties(index: Index, cls: ClassInfo):
 
 def tracked_objects(index: Index, interp_cls: ClassInfo, it: Interp):
     """oid -> cache attrs stored by that object's class ('self' and composite fields)."""
+    register_lazy_caches(index)
     register_cached_properties(index, interp_cls)
     for c in interp_cls.mro:
         for (cn, attr), comp in it.composites.items():
@@ -157,6 +208,7 @@ def tracked_objects(index: Index, interp_cls: ClassInfo, it: Interp):
 
 def derive_scratch(index: Index):
     """attributes that are scratch: every read in every public entry is preceded by a write in the same entry."""
+    register_lazy_caches(index)
     rb = ReadBeforeWrite()
     n = 0
     for cls in index.shape_classes():
